@@ -3,7 +3,8 @@
 From Coq Require Import List ZArith QArith Bool.
 From PV Require Import lib.Sx lib.Str lib.Result model.GenSccw model.SccWrap model.SccWrite spec.SpecSccw.
 From PV Require Import proofs.SccWriteFacts proofs.SccWrapFacts proofs.SccWordsFacts proofs.SccDecodeFacts
-     proofs.SccLayoutFacts proofs.SccTimingFacts model.SccRoundTrip model.SccDecoder proofs.SccDocFacts proofs.SccRoundTripFacts.
+     proofs.SccLayoutFacts proofs.SccTimingFacts model.SccRoundTrip model.SccDecoder proofs.SccDocFacts proofs.SccComposeFacts
+     proofs.SccRoundTripFacts.
 Import ListNotations.
 Open Scope Q_scope.
 
@@ -24,8 +25,9 @@ Theorem C17_table_pac_rows : forall row, (1 <= row <= 15)%Z -> pac_ok row = true
 Proof. exact pac_ok_row. Qed.
 Print Assumptions C17_table_pac_rows.
 
-(* the writer's basic table is the CEA-608 basic character set (both directions), and the reader's
-   CHARACTERS table inverts it *)
+(* the writer's basic table lies inside the CEA-608 basic character set and covers its codes 0x20..0x7e (the
+   solid block 0x7f is a CEA-608 basic code the tree's table does not contain; the specification accepts it, so a
+   tree that added it would still pass the first conjunct), and the reader's CHARACTERS table inverts it *)
 Theorem C17_table_basic_set :
   forallb (fun kv => match cea_basic (snd kv mod 128) with Some c => (c =? fst kv)%Z | None => false end)
           sccw_character_to_code = true /\
@@ -37,7 +39,9 @@ Theorem C17_table_basic_set :
 Proof. exact (conj tbl_basic_is_cea (conj tbl_basic_covers_cea tbl_reader_inverts)). Qed.
 Print Assumptions C17_table_basic_set.
 
-(* HEADER is the Scenarist header; MICROSECONDS_PER_CODEWORD is within 2^-30 us of 1001000/30 *)
+(* HEADER is the Scenarist header.  The second conjunct is informational only: the tree's float
+   MICROSECONDS_PER_CODEWORD is within 2^-30 us of the exact 1001000/30 the model computes with; no other theorem
+   uses this bound (binary64 arithmetic is correspondence only) *)
 Theorem C17_table_constants :
   sccw_header = scenarist_header /\
   Qle_bool (Qabs.Qabs ((sccw_mpc_num # Z.to_pos sccw_mpc_den) - mpc)) (1 # 1073741824) = true.
@@ -125,31 +129,28 @@ Theorem C17_document_parses : forall caps doc, write caps = Ok doc ->
     forallb (fun l => forallb word_odd (snd l)) lines = true.
 Proof. exact document_parses. Qed.
 Print Assumptions C17_document_parses.
-(* hence the composition with the reader model always reaches the reader model *)
-Theorem C17_reread_reaches_reader : forall caps,
-  (forall c, In c caps -> 0 <= w_start c /\ 0 <= w_end c /\ (length (layout_rows (w_text c)) <= 15)%nat) ->
-  exists lines, reread caps = RRRead (read 0 (map to_sline lines))
-                /\ forallb (fun l => forallb word_odd (snd l)) lines = true.
-Proof. exact reread_reaches_reader. Qed.
-Print Assumptions C17_reread_reaches_reader.
+(* PARTIAL re-read statement: under the statement's hypotheses the writer model does not fail, its document satisfies
+   the whole output oracle, and the reader model is run on exactly the lines the oracle judged.  What the reader model
+   RETURNS is proved only for the complete character tables below and evaluated (request 1705) on generated cases *)
+Theorem C17_reread_input_partial : forall caps, Forall cap_dom caps -> caps_spaced 0 caps ->
+  exists doc lines, write caps = Ok doc /\ parse_document doc = Some lines
+                    /\ ok_output (map to_cue caps) doc = 0%Z
+                    /\ reread caps = RRRead (read 0 (map to_sline lines)).
+Proof. exact reread_input_ok. Qed.
+Print Assumptions C17_reread_input_partial.
 
-Theorem C17_roundtrip_every_basic_char :
+Theorem C17_roundtrip_every_basic_char_partial :
   forallb (fun c => roundtrip_ok (one_cap (lit "a" ++ [c] ++ lit "b")) && roundtrip_ok (one_cap ([c] ++ lit "ab c")))
           (filter (fun c => negb (c =? 32)%Z) basic_cps) = true.
 Proof. exact roundtrip_every_basic_char. Qed.
-Print Assumptions C17_roundtrip_every_basic_char.
-Theorem C17_roundtrip_basic_pairs :
+Print Assumptions C17_roundtrip_every_basic_char_partial.
+Theorem C17_roundtrip_basic_pairs_partial :
   forallb (fun c1 => forallb (fun c2 => roundtrip_ok (one_cap ([c1; c2]))) neighbours)
           (filter (fun c => negb (c =? 32)%Z) basic_cps) = true.
 Proof. exact roundtrip_basic_pairs. Qed.
-Print Assumptions C17_roundtrip_basic_pairs.
+Print Assumptions C17_roundtrip_basic_pairs_partial.
 
 (* ---- timing ------------------------------------------------------------------------------------------ *)
-(* PASS 2 is a one-caption look-ahead *)
-Theorem C17_pass2_lookahead : forall c s e todo,
-  pass2 [] ((c, s, e) :: todo) = pass2_ahead c (pre_roll c s) e todo.
-Proof. exact pass2_lookahead. Qed.
-Print Assumptions C17_pass2_lookahead.
 (* under the spacing hypothesis the frame numbers written are non-negative and non-decreasing *)
 Theorem C17_timecodes_monotone : forall codes, spaced 0 codes ->
   chainZ 0 (map tc_frames (emitted (pass2 [] codes))).
@@ -159,7 +160,8 @@ Print Assumptions C17_timecodes_monotone.
 Theorem C17_timestamp_roundtrip : forall t, 0 <= t -> parse_timecode (format_timestamp t) = Some (tc_frames t).
 Proof. exact timestamp_roundtrip. Qed.
 Print Assumptions C17_timestamp_roundtrip.
-(* the load is displayed between 3 and 2 frames before the cue's start *)
+(* the load is displayed between 3 and 2 frames before the cue's start (n + 6 = index of the first End-Of-Caption in
+   the load line: SccComposeFacts.index_of_load derives it from the line the writer model emits) *)
 Theorem C17_visible_within_3_frames : forall code start,
   0 <= start - code_words code * mpc ->
   let n := (Z.of_nat (length code) / 5)%Z in
@@ -167,6 +169,17 @@ Theorem C17_visible_within_3_frames : forall code start,
   start - 3 * mpc < shown /\ shown <= start - 2 * mpc.
 Proof. exact visible_within_3_frames. Qed.
 Print Assumptions C17_visible_within_3_frames.
+
+(* ---- THE COMPOSED STATEMENT (wave 3): for caption sets over the basic set, each caption laid out on <= 15 rows, cues
+        ordered, not overlapping and each starting at least its own transmission time (body words + 8 framing words,
+        one frame each) after the previous cue's start, the document the writer model produces gets verdict 0 from
+        the property oracle: Scenarist document of hex words, odd parity everywhere, one pop-on load per cue whose body
+        decodes to distinct rows within 1..15 of <= 32 columns carrying the text's words (long words in pieces),
+        displayed within three frames of the start, timecodes non-decreasing ------------------------------------ *)
+Theorem C17_write_meets_oracle : forall caps doc,
+  write caps = Ok doc -> Forall cap_dom caps -> caps_spaced 0 caps -> ok_output (map to_cue caps) doc = 0%Z.
+Proof. exact write_meets_oracle. Qed.
+Print Assumptions C17_write_meets_oracle.
 
 (* ---- non-vacuity ---------------------------------------------------------------------------------------- *)
 Example C17_example_wrap :
@@ -196,3 +209,16 @@ Example C17_example_write :
      ++ lit "00:00:11:18" ++ [9%Z] ++ lit "94ae 94ae 9420 9420 9470 9470 e364 942c 942c 942f 942f" ++ [10; 10]%Z
      ++ lit "00:00:12:29" ++ [9%Z] ++ lit "942c 942c" ++ [10; 10]%Z).
 Proof. split; [vm_compute; intuition discriminate|vm_compute; reflexivity]. Qed.
+(* the hypotheses of the composed statement hold for an ordinary two-cue set (and its document is the one above) *)
+Example C17_example_composed :
+  let caps := [mkWcap (lit "ab") (10000000 # 1) (12000000 # 1); mkWcap (lit "cd") (12000000 # 1) (13000000 # 1)] in
+  Forall cap_dom caps /\ caps_spaced 0 caps /\ (exists doc, write caps = Ok doc /\ ok_output (map to_cue caps) doc = 0%Z).
+Proof.
+  split; [repeat constructor|split; [vm_compute; intuition discriminate|eexists; split; [vm_compute; reflexivity|vm_compute; reflexivity]]].
+Qed.
+(* a cue 10 s in, 9 body words: the hypothesis of C17_visible_within_3_frames holds and the load is shown 2-3 frames early *)
+Example C17_example_visible :
+  let code := lit "9470 9470 6162 " in
+  0 <= (10000000 # 1) - code_words code * mpc /\
+  tc_frames (pre_roll code (10000000 # 1)) = 288%Z.
+Proof. vm_compute. split; [discriminate|reflexivity]. Qed.
